@@ -915,7 +915,7 @@ def e2e_case(args):
                     for rpc, py in subjects:
                         spec = {"service_module": "jobs", "client": cn, "transport": tr, "method": py,
                                 "request": rmode if rpc == "Start" else {"mode": "message", "cls": f"{pypkg}:StartRequest", "b64": d.b64(rq)},
-                                "consume": "lro",
+                                "consume": "lro", "lro_timeout": 180,   # real-time bound of the polling loop: waits are patched
                                 "grpc_script": {f"/{pkg}.Jobs/{rpc}": [{"messages": [d.b64(ops[0])]}],
                                                 GET_OP: [{"messages": [d.b64(o)]} for o in ops[1:]]},
                                 "http_script": [{"status": 200, "body": json_format.MessageToJson(o, descriptor_pool=d.pool)} for o in ops]}
